@@ -4,6 +4,9 @@ C18 — ofxget settings obey CLI > user file > FI db > OFX Home > defaults, and 
 Model: `OfxModel/Ofx/Ofxget.lean`; spec: `OfxModel/Spec/Ofxget.lean`; tables generated from the source.
 -/
 import OfxProofs.Lemmas.Ofxget
+import OfxProofs.Lemmas.OfxgetFiles
+import OfxProofs.Lemmas.OfxgetWrite
+import OfxProofs.Lemmas.OfxgetValues
 import OfxProofs.Gen.Ofxget
 
 namespace Ofx.Ofxget
@@ -31,6 +34,56 @@ theorem C18_precedence (T : Tables) (hwf : T.WF = true) (lookup : Str → Option
   refine ⟨cli, userCfg, hu, hcli, fun k => ⟨fun v => ?_, ?_⟩⟩
   · rw [he k, firstSetter_some_iff]
   · rw [he k, firstSetter_none_iff]
+
+/-- **C18_precedence_sources** — the five places, with the two configuration files as separate sources.
+    For a server nickname `s` that has a section in either file, and every CONFIGURABLE option `k` (independently):
+    * if the command line sets `k`, that value is in effect;
+    * otherwise, if the files say anything for `k` — the user's section for `s`, else the FI database's section for
+      `s`, else the DEFAULT section of the user's file, else that of the FI database (`fileLookup`: what one file
+      says, last assignment wins) — the typed reading of *that* text is in effect (and the reading succeeds);
+    * otherwise the OFX Home record, and failing that the built-in default. -/
+theorem C18_precedence_sources (T : Tables) (hwf : T.WF = true) (lookup : Str → Option OhRec) (ns : Map)
+    (fidb user : FileC) (c : Chain) (s : Str) (hs : s ≠ defaultSect)
+    (hsrv : (extractns ns).lookup "server".toList = some (.str s))
+    (hknown : (fileHasSection fidb s || fileHasSection user s) = true)
+    (h : mergeConfig T lookup ns (loadUser fidb user) = .ok c) :
+    ∃ cli userCfg,
+      (cli = extractns ns ∨ ∃ server, (extractns ns).lookup "server".toList = some (.str server) ∧
+          cli = sloppy (extractns ns) server) ∧
+      ∀ k ty, T.configurable.lookup k = some ty →
+        (∀ v, cli.lookup k = some v → effective c k = some v) ∧
+        (cli.lookup k = none → ∀ raw,
+          ((fileLookup user s k).or (fileLookup fidb s k)).or
+            ((fileLookup user defaultSect k).or (fileLookup fidb defaultSect k)) = some raw →
+          ∃ tv, typedOfStr T ty raw = .ok tv ∧ effective c k = some tv) ∧
+        (cli.lookup k = none →
+          ((fileLookup user s k).or (fileLookup fidb s k)).or
+            ((fileLookup user defaultSect k).or (fileLookup fidb defaultSect k)) = none →
+          effective c k = firstSetter [ohSource lookup [extractns ns, userCfg, T.defaults], T.defaults] k) := by
+  obtain ⟨cli, userCfg, hu, hcli, he⟩ := mergeConfig_effective T hwf lookup ns _ c h
+  refine ⟨cli, userCfg, hcli, ?_⟩
+  have hrc : readConfig T (loadUser fidb user) s = .ok userCfg := by
+    unfold userCfgOf at hu
+    rw [hsrv] at hu
+    exact hu
+  have hcont : (loadUser fidb user).contains s = true := by rw [loadUser_contains _ _ _ hs]; exact hknown
+  intro k ty hty
+  have hl := readConfig_lookup T _ s userCfg hs hcont hrc k ty hty
+  rw [raw_layering fidb user s k hs] at hl
+  refine ⟨?_, ?_, ?_⟩
+  · intro v hv
+    rw [he k]
+    simp only [firstSetter, hv]
+  · intro hnone raw hraw
+    rw [hraw] at hl
+    obtain ⟨tv, htv, hlook⟩ := hl
+    refine ⟨tv, htv, ?_⟩
+    rw [he k]
+    simp only [firstSetter, hnone, hlook]
+  · intro hnone hraw
+    rw [hraw] at hl
+    rw [he k]
+    simp only [firstSetter, hnone, hl]
 
 /-- `extractns` drops exactly the `None` entries: an option the command line does not set cannot shadow anything -/
 theorem C18_extractns (ns : Map) (k : Name) (v : CfgVal) :
@@ -72,13 +125,38 @@ theorem set_other_untouched (c : Ini) (sect : Str) (k : Name) (v : Str)
       simp [lookup_mapSet, hk]
     · simp [hs]
 
-/-- **C18_no_password** (table half).  The only options `mk_server_cfg` assigns are the CONFIGURABLE ones (and the
-    DEFAULT-section `clientuid`); `password` is not among them and is not `clientuid`, so by `set_other_untouched`
-    no assignment of a `--write` touches a `password` option. -/
-theorem C18_no_password :
-    (∀ kt ∈ Generated.ofxgetTables.configurable, "password".toList ≠ lower kt.1) ∧
-    "password".toList ≠ lower "clientuid".toList := by
-  decide +kernel
+/-- **C18_no_password.**  Whatever `--write` leaves under the name `password`, in any section of `ofxget.cfg`
+    (DEFAULT included), was already there when the file was re-read at the start of `mk_server_cfg`: saving never
+    adds or changes a password option — for every mapping, every prior file content, every table with
+    `password ∉ CONFIGURABLE` and lower-case CONFIGURABLE keys (`Tables.WF`). -/
+theorem C18_no_password (T : Tables) (hwf : T.WF = true) (args : Chain) (mem lib : Ini) (disk : FileC) (uuid : Str)
+    (cfg' : Ini) (h : writeConfig T args mem lib disk uuid = .ok (some cfg')) (sect' : Str) (v : Str)
+    (hv : cfg'.look sect' "password".toList = some v) :
+    (({ mem with sections := [] } : Ini).loadFile disk).look sect' "password".toList = some v := by
+  have hmk : mkServerCfg T args mem lib disk uuid = .ok cfg' := by
+    unfold writeConfig at h
+    simp only [bind, Except.bind] at h
+    split at h
+    · cases h
+    · split at h
+      · cases h
+      · cases hm : mkServerCfg T args mem lib disk uuid with
+        | error e => rw [hm] at h; cases h
+        | ok c =>
+          rw [hm] at h
+          simp only [pure, Except.pure, Except.ok.injEq, Option.some.injEq] at h
+          rw [h]
+  simp only [Tables.WF, Bool.and_eq_true] at hwf
+  obtain ⟨⟨⟨⟨⟨hpw, hlow⟩, _⟩, _⟩, _⟩, _⟩ := hwf
+  refine mkServerCfg_untouched T args mem lib disk uuid cfg' hmk _ ?_ (by decide) sect' v hv
+  intro ot hot heq
+  have hl : lower ot.1 = ot.1 := by
+    have := List.all_eq_true.mp hlow ot hot
+    simpa using this
+  rw [hl] at heq
+  have : "password".toList ∈ T.configurable.map (·.1) := by rw [heq]; exact List.mem_map_of_mem hot
+  simp only [Bool.not_eq_true', List.contains_eq_mem, decide_eq_false_iff_not] at hpw
+  exact hpw this
 
 /-! ### persistence -/
 
@@ -168,6 +246,11 @@ theorem C18_persist_partial_str (T : Tables) (s : Str) (hclean : strip s = s) :
 
 example : strip "https://ofx.example.com/cgi?x=%41&y=2".toList = "https://ofx.example.com/cgi?x=%41&y=2".toList := by
   decide +kernel
+
+/-- **C18_persist_partial** (value level, integer options): always — `int(str(i)) == i` through the INI reader,
+    for every integer -/
+theorem C18_persist_partial_int (T : Tables) (i : Int) : readsBack T .int (.int i) = true := by
+  simp [readsBack, arg2config, pyStr, typedOfStr, pyInt_roundtrip]
 
 /-- **C18_persist_partial** (value level, boolean options): always -/
 theorem C18_persist_partial_bool (b : Bool) :
